@@ -4,7 +4,8 @@ P="$1"; RUNS="$2"; shift 2
 HERE="$(cd "$(dirname "$0")/.." && pwd)"
 T=$(mktemp -d /tmp/gbsim-try-XXXXXX)
 cp -r /repo/src "$T/src"; rm -rf "$T/src/gbigsmiles/__pycache__"
-(cd "$T" && git apply --include='src/*' "$P") || { echo "patch failed"; rm -rf "$T"; exit 3; }
+# (older seeded changes were written before later fix: commits touched neighbouring lines: fall back on patch(1) with fuzz)
+(cd "$T" && git apply --include='src/*' "$P" 2>/dev/null) || (cd "$T" && patch -p1 -F 3 -s --no-backup-if-mismatch < "$P") || { echo "patch failed"; rm -rf "$T"; exit 3; }
 if [ "$RUNS" != "0" ]; then export GBSIM_RUNS="$RUNS"; fi
 for PID in "$@"; do
   GBSIM_REPO="$T" GBSIM_EVIDENCE_DIR="$T/ev" GBSIM_REPLAY_DIR="$T/rp" "$HERE/check" "$PID" quick > "$T/out.txt" 2>&1; RC=$?
